@@ -2,10 +2,8 @@ package props
 
 import (
 	"fmt"
-	"go/ast"
 	"go/constant"
 	"go/token"
-	"go/types"
 	"strings"
 
 	"golang.org/x/tools/go/ssa"
@@ -55,8 +53,8 @@ func runC18(c *core.Ctx) {
 	importRules(c, "C01", "C18-REPORT", func(o core.Obligation) bool { return strings.Contains(o.Key, "cmpp.SubPduDeliveryContent") })
 	c.Trust("strings.Index contract", "hex.EncodeToString", "SMPP 3.4 appendix B and SMGP 3.0.3 receipt format for the key table")
 	c.NotDecided("order independence for values that themselves contain key tokens (excluded by the property)")
-	finderRule(c, "smpp/smpp34", "findSubValue", false)
-	finderRule(c, "smgp/smgp30", "findSubValue", true)
+	finderSemantics(c, "smpp/smpp34", "findSubValue", false)
+	finderSemantics(c, "smgp/smgp30", "findSubValue", true)
 	idRule(c)
 	keysRule(c, "smpp/smpp34", "ExtractDeliveryReceipt", "findSubValue", smppKeys, false)
 	keysRule(c, "smgp/smgp30", "ExtractDeliveryReceipt", "findSubValue", smgpKeys, true)
@@ -418,53 +416,76 @@ func idRule(c *core.Ctx) {
 
 // keysRule: the extractor is straight-line and uses exactly the key table.
 func keysRule(c *core.Ctx, rel, name, finder string, table []receiptKey, smgp bool) {
+	// decided on SSA: every store into a field of the receipt (direct assignments, a composite literal, a local that is
+	// returned) whose value is a call of the finder with constant key / backup / width; every such call is executed on
+	// every path (its block dominates all returns), so no key depends on another
 	key := rel + "." + name
 	fnObj := c.Prog.LookupFunc(rel, name)
-	decl, pkg := c.Prog.FuncDecl(fnObj)
-	if decl == nil {
+	fn := c.Prog.SSAFunc(fnObj)
+	if fn == nil {
 		c.Broken("C18-KEYS", key, "extractor not found")
 		return
 	}
-	pos := c.Prog.Pos(decl.Pos())
-	finderObj := c.Prog.LookupFunc(rel, finder)
+	pos := c.Prog.Pos(fn.Pos())
+	finderFn := c.Prog.SSAFunc(c.Prog.LookupFunc(rel, finder))
 	var problems []string
 	got := map[string]receiptKey{}
-	for _, st := range decl.Body.List {
-		switch x := st.(type) {
-		case *ast.AssignStmt:
-			if len(x.Lhs) != 1 || len(x.Rhs) != 1 {
-				problems = append(problems, "unexpected assignment form")
+	var rets []*ssa.BasicBlock
+	for _, b := range fn.Blocks {
+		if _, ok := b.Instrs[len(b.Instrs)-1].(*ssa.Return); ok {
+			rets = append(rets, b)
+		}
+	}
+	for _, b := range fn.Blocks {
+		for _, ins := range b.Instrs {
+			st, ok := ins.(*ssa.Store)
+			if !ok {
 				continue
 			}
-			sel, ok := x.Lhs[0].(*ast.SelectorExpr)
-			call, ok2 := x.Rhs[0].(*ast.CallExpr)
-			if !ok || !ok2 {
-				problems = append(problems, "unexpected statement "+types.ExprString(x.Lhs[0]))
+			fa, ok := st.Addr.(*ssa.FieldAddr)
+			if !ok {
 				continue
 			}
-			callee := calleeFunc(pkg.TypesInfo, call)
-			if callee == nil {
+			_, f, ok := fieldOfAddr(fa)
+			if !ok {
 				continue
 			}
-			if callee != finderObj {
-				if smgp && sel.Sel.Name == "ID" && callee.Name() == "findSMGPIDValue" {
+			if nt := namedOfType(fa.X.Type()); nt == nil || nt.Obj().Name() != "DeliveryReceipt" {
+				continue
+			}
+			call, ok := st.Val.(*ssa.Call)
+			if !ok || call.Call.StaticCallee() == nil {
+				problems = append(problems, "field "+f.Name()+" is assigned something other than a finder result")
+				continue
+			}
+			callee := call.Call.StaticCallee()
+			if callee != finderFn {
+				if smgp && f.Name() == "ID" && callee.Name() == "findSMGPIDValue" {
 					continue
 				}
-				problems = append(problems, "field "+sel.Sel.Name+" is not filled by "+finder)
+				problems = append(problems, "field "+f.Name()+" is not filled by "+finder)
 				continue
 			}
-			rk := receiptKey{field: sel.Sel.Name}
+			for _, rb := range rets {
+				if !call.Block().Dominates(rb) {
+					problems = append(problems, "the lookup for field "+f.Name()+" is conditional: keys looked up after a branch depend on keys before it")
+				}
+			}
+			if call.Call.Args[0] != ssa.Value(fn.Params[0]) {
+				problems = append(problems, "field "+f.Name()+" is not looked up in the receipt text itself")
+			}
+			rk := receiptKey{field: f.Name()}
 			var consts []string
-			for _, a := range call.Args[1:] {
-				tv := pkg.TypesInfo.Types[a]
-				if tv.Value == nil {
-					problems = append(problems, "non-constant key/width for field "+sel.Sel.Name)
+			for _, a := range call.Call.Args[1:] {
+				k, isK := a.(*ssa.Const)
+				if !isK || k.Value == nil {
+					problems = append(problems, "non-constant key/width for field "+f.Name())
 					continue
 				}
-				if tv.Value.Kind() == constant.String {
-					consts = append(consts, constant.StringVal(tv.Value))
-				} else if k, ok := constant.Int64Val(tv.Value); ok {
-					rk.width = k
+				if k.Value.Kind() == constant.String {
+					consts = append(consts, constant.StringVal(k.Value))
+				} else if v, ok := constant.Int64Val(k.Value); ok {
+					rk.width = v
 				}
 			}
 			if len(consts) > 0 {
@@ -477,9 +498,6 @@ func keysRule(c *core.Ctx, rel, name, finder string, table []receiptKey, smgp bo
 				problems = append(problems, "field "+rk.field+" is assigned twice")
 			}
 			got[rk.field] = rk
-		case *ast.ReturnStmt:
-		default:
-			problems = append(problems, fmt.Sprintf("the extractor is not straight-line (%T at %s): keys looked up after it depend on keys before it", st, c.Prog.Pos(st.Pos())))
 		}
 	}
 	for _, want := range table {
@@ -494,7 +512,7 @@ func keysRule(c *core.Ctx, rel, name, finder string, table []receiptKey, smgp bo
 	if len(got) != len(table) {
 		problems = append(problems, fmt.Sprintf("%d fields extracted through %s, expected %d", len(got), finder, len(table)))
 	}
-	c.Decide(len(problems) == 0, "C18-KEYS", key, pos, fmt.Sprintf("%d keys, straight-line", len(table)), strings.Join(uniq(problems), "; "))
+	c.Decide(len(problems) == 0, "C18-KEYS", key, pos, fmt.Sprintf("%d keys, each looked up unconditionally in the receipt text", len(table)), strings.Join(uniq(problems), "; "))
 }
 
 // indexTests: every test of a strings.Index / IndexByte result against a constant must be one of the forms that mean
